@@ -51,7 +51,7 @@ theorem bddToMdd_gen (ext : Nat → Nat) (mb : Mgr) (h : ReorderInv ext mb) (dva
       m1.sched = mb.sched → P m1)
     (hpe : ∀ m, P m → PredExact m) :
     OkOr (fun e => E e ∨ (lev.isSome = true ∧ e = Err.sched))
-      (fun out mb' => B2MOK ext dvars mb out mb') (bddToMdd dvars lev mb) := by
+      (fun out mb' => B2MOK ext dvars mb out mb' ∧ P mb') (bddToMdd dvars lev mb) := by
   have G := b2mPrepare_gen ext mb h dvars hd S hP hP1
   cases hprep : b2mPrepare dvars mb with
   | mk r m2 =>
@@ -100,7 +100,15 @@ theorem bddToMdd_gen (ext : Nat → Nat) (mb : Mgr) (h : ReorderInv ext mb) (dva
           unfold bddToMdd; rw [hprep]; simp only; rw [hac]; simp only; rw [hord]; simp only
           rw [hPrep.btv]; exact hloop
         rw [hr]
-        exact bddToMdd_spec ext mb h dvars hd.toDvarsOK lev out m2 hr
+        exact ⟨bddToMdd_spec ext mb h dvars hd.toDvarsOK lev out m2 hr, hPm2⟩
+
+/-- a description of the integer variables only depends on the declared names -/
+theorem DvarsFull.transfer {t t' : Tbl} {dvars : List MVar} (h : DvarsFull t dvars)
+    (hn : ∀ v : String, t'.vars.contains v = t.vars.contains v) : DvarsFull t' dvars := by
+  refine ⟨⟨h.levels, h.bits.trans ?_⟩, h.names, h.nonempty, h.len⟩
+  rw [List.perm_ext_iff_of_nodup TreeMap.nodup_keys TreeMap.nodup_keys]
+  intro a
+  rw [TreeMap.mem_keys, TreeMap.mem_keys, TreeMap.mem_iff_contains, TreeMap.mem_iff_contains, hn a]
 
 /-- the swap contract, extended with "every key of `_pred` is a triple" -/
 theorem swapOK_shaped {E : Err → Prop} {P : Mgr → Prop} {R : Mgr → Mgr → Prop} (S : SwapOK E P R) :
@@ -121,8 +129,8 @@ theorem swapOK_shaped {E : Err → Prop} {P : Mgr → Prop} {R : Mgr → Mgr →
 alternative being the model's own report that the recorded iteration orders do not fit -/
 theorem bddToMdd_okOrSched (ext : Nat → Nat) (mb : Mgr) (h : ReorderInv ext mb) (hks : KeysShaped mb)
     (dvars : List MVar) (hd : DvarsFull mb.tbl dvars) (lev : Option (List Nat)) :
-    OkOrSched (fun out mb' => B2MOK ext dvars mb out mb') (bddToMdd dvars lev mb) := by
-  refine OkOr.monoE ?_ (bddToMdd_gen ext mb h dvars hd lev (swapOK_shaped (swapOKng ext))
+    OkOrSched (fun out mb' => B2MOK ext dvars mb out mb' ∧ KeysShaped mb') (bddToMdd dvars lev mb) := by
+  refine OkOr.mono (fun _ _ hq => ⟨hq.1, hq.2.2⟩) <| OkOr.monoE ?_ (bddToMdd_gen ext mb h dvars hd lev (swapOK_shaped (swapOKng ext))
     (fun m hm => hm.1)
     (fun m1 hgc a b _ => ⟨⟨a, b⟩, hks.le (Shp.collectGarbage none mb _ m1 hgc)⟩)
     (fun m hm => hm.2.exact hm.1.1.inv))
@@ -131,16 +139,19 @@ theorem bddToMdd_okOrSched (ext : Nat → Nat) (mb : Mgr) (h : ReorderInv ext mb
 /-- with no recorded schedule (the model iterates in ascending order): total -/
 theorem bddToMdd_total (ext : Nat → Nat) (mb : Mgr) (h : ReorderInv ext mb) (hks : KeysShaped mb)
     (hs : mb.sched = []) (dvars : List MVar) (hd : DvarsFull mb.tbl dvars) :
-    ∃ out mb', bddToMdd dvars none mb = (.ok out, mb') ∧ B2MOK ext dvars mb out mb' := by
+    ∃ out mb', bddToMdd dvars none mb = (.ok out, mb') ∧ B2MOK ext dvars mb out mb' ∧
+      KeysShaped mb' ∧ mb'.sched = [] := by
   have := bddToMdd_gen ext mb h dvars hd none (swapOK_shaped (swapOKng0 ext))
     (fun m hm => hm.1.1)
     (fun m1 hgc a b c => ⟨⟨⟨a, b⟩, by rw [c]; exact hs⟩, hks.le (Shp.collectGarbage none mb _ m1 hgc)⟩)
     (fun m hm => hm.2.exact hm.1.1.1.inv)
-  have h2 : OkOr NoErr (fun out mb' => B2MOK ext dvars mb out mb') (bddToMdd dvars none mb) := by
-    refine OkOr.monoE ?_ this
-    rintro e (he | ⟨hc, _⟩)
-    · exact he
-    · cases hc
+  have h2 : OkOr NoErr (fun out mb' => B2MOK ext dvars mb out mb' ∧ KeysShaped mb' ∧ mb'.sched = [])
+      (bddToMdd dvars none mb) := by
+    have h3 := OkOr.monoE (E' := NoErr) (by
+      rintro e (he | ⟨hc, _⟩)
+      · exact he
+      · cases hc) this
+    exact OkOr.mono (fun _ _ hq => ⟨hq.1, hq.2.2, hq.2.1.2⟩) h3
   exact h2.total
 
 end DD
